@@ -1,4 +1,5 @@
 import GrinVerif.Model.Crash
+import GrinVerif.Lemmas.CrashBasic
 /-! # C09 — a crash at any persistence step never bricks or corrupts the chain
 
 Theorems about the crash model (`Model/Crash.lean`). The property is FALSE of the unchanged
@@ -96,5 +97,33 @@ theorem only_commits_move_heads (t : Target) (d : Durable) (s : Step)
     (h1 : s ≠ .hdrCommit) (h2 : s ≠ .finalCommit) :
     (applyStep t d s).dbHead = d.dbHead ∧ (applyStep t d s).dbHHead = d.dbHHead := by
   cases s <;> simp_all [applyStep]
+
+/-- **Every chain: a cleanly stopped node reopens on its head.** For any block table and any stored
+path (genesis first) ending in `tip`, the consistent durable state of that path — head and
+header head = `tip`, every MMR file holding exactly the path's entries, leaf set = replayed
+unspent set — is recovered by `Chain::init`'s model as `ok tip`: the header-MMR check passes and
+the fallback loop stops at its first candidate. (No bound on the chain's length or shape.) -/
+theorem recover_consistent (bcf : Nat → Bool) (tbl : List BlkInfo) (path : List BlkInfo) (tip : Nat)
+    (hp : pathOf tbl (tbl.length + 1) tip [] = some path)
+    (htip : (path.getLast?.map (·.id)).getD 0 = tip) :
+    recover bcf tbl (consistent path) = .ok tip := by
+  unfold recover
+  have hd : (consistent path).dbHHead = tip := by simp [consistent, htip]
+  have hh : (consistent path).dbHead = tip := by simp [consistent, htip]
+  have e1 : (consistent path).hdrHash.length = (consistent path).hdrData.length := by simp [consistent]
+  have e2 : (consistent path).hdrData = path.map (·.id) := by simp [consistent]
+  rw [if_neg (by simpa using e1), hd, hp]
+  have t : List.take path.length (List.map (fun x => x.id) path) = List.map (fun x => x.id) path := by
+    rw [← List.length_map (f := fun (x : BlkInfo) => x.id)]; exact List.take_length
+  simp only [e2, t, ne_eq, not_true_eq_false, if_false, hh]
+  unfold fallback
+  simp only [hp]
+  split
+  · rfl
+  · simp [validAt_consistent]
+
+-- non-vacuity: the 8-block prefix of the witness chain
+example : recover bc tbl9 (consistent old8) = .ok 7 :=
+  recover_consistent bc tbl9 old8 7 (by decide) (by decide)
 
 end GV.Props.C09
